@@ -30,6 +30,8 @@ def build(d):
     if o == "fpv":
         return claripy.FPV(fpref.bits_to_py(d[1], d[2]), csort(d[2]))
     if o == "fpv_py":
+        if v == "raw":
+            return float.fromhex(d[1])  # left to the operator to coerce
         return claripy.FPV(float.fromhex(d[1]), csort(d[2]))
     if o == "fpv_int":
         # a Python integer where a float is expected (FPV and the operators accept them)
